@@ -21,7 +21,7 @@ Record fobs := {
   fo_tag : list N;                                  (* field.Tag.Get("flag") *)
   fo_hname : list N;                                (* flag name and tag default as the harness author reads the documentation *)
   fo_hdef : list N;
-  fo_bound : bool;                                  (* Lookup(hname) exists and its Value points at this very field *)
+  fo_bound : bool;                                  (* Lookup(hname).Value.Set(probe) changes exactly this field (tested on a throw-away instance) *)
   fo_usage : list N;                                (* Flag.Usage of the implementation *)
   fo_init : list N;                                 (* canonical field value right after NewFlagSet *)
   fo_envhand : list N;                              (* the env name the harness used (written by hand) *)
